@@ -315,6 +315,16 @@ def drive(prop, tier, replay=None, shards=None):
     budget = plan.get('budget')
     if replay:
         nshards = 1
+    else:
+        # replay files of earlier runs of this check are stale now
+        outdir = os.path.join(VERIF, 'out', prop)
+        if os.path.isdir(outdir):
+            for fn in os.listdir(outdir):
+                if fn.endswith('.json') and not fn.startswith('.'):
+                    try:
+                        os.remove(os.path.join(outdir, fn))
+                    except OSError:
+                        pass
     results, errors, wall = run_shards(prop, tier, seed, nshards, timeout, budget, replay)
     agg = aggregate(results)
     kf = load_known_findings()
@@ -345,7 +355,10 @@ def drive(prop, tier, replay=None, shards=None):
     if status != 'violated' and reasons:
         status = 'inconclusive'
         for r in reasons:
-            lines.append('INCONCLUSIVE property=%s reason=%s' % (prop, r.replace('\n', ' ')[:400]))
+            r = r.replace('\n', ' ')
+            if len(r) > 500:
+                r = r[:120] + ' ... ' + r[-380:]
+            lines.append('INCONCLUSIVE property=%s reason=%s' % (prop, r))
 
     if not replay:
         write_evidence(mod, prop, tier, seed, agg, wall, status, reasons)
@@ -379,6 +392,9 @@ def write_evidence(mod, prop, tier, seed, agg, wall, status, reasons):
           'assumptions': list(getattr(mod, 'ASSUMPTIONS', [])),
           'wall_s': round(wall, 2), 'violations': int(agg['n_violations'])}
     d = os.path.join(VERIF, 'evidence')
+    if os.path.realpath(repo_root()) != '/repo':
+        # a run against a scratch copy (mutant self-test) must not overwrite the real evidence
+        d = os.path.join(VERIF, 'out', 'scratch-evidence')
     os.makedirs(d, exist_ok=True)
     tmp = os.path.join(d, '.%s.json.tmp' % prop)
     with open(tmp, 'w') as f:
